@@ -169,8 +169,13 @@ static void run_class(const ClassAdapter<T>& A, int depth) {
           if (violcap().admit(A.name + "|lr|" + A.muts[m].name)) report_violation(site, "roundtrip:lookahead-answer!=", trigger_for(A.name, "lookahead-return", t, ""), inj2, r2.substr(0, 300), r1.substr(0, 300));
           continue;
         }
+        // the operation left the ORIGINAL inconsistent (e.g. overflow of a bounded coefficient type): another
+        // property's finding; values of broken objects are not compared
+        if (!ok1) { count(CNT_USER + 1); continue; }
         bool eq = false; try { eq = A.equal(*x, *y); } catch (...) {}
-        if (!eq) { if (violcap().admit(A.name + "|lv|" + A.muts[m].name)) report_violation(site, "roundtrip:lookahead-value!=", "none", inj2, A.print(*y).substr(0, 300), A.print(*x).substr(0, 300)); continue; }
+        if (!eq) {
+          std::string py = "<print throws>", px = "<print throws>"; try { py = A.print(*y); } catch (...) {} try { px = A.print(*x); } catch (...) {}
+          if (violcap().admit(A.name + "|lv|" + A.muts[m].name)) report_violation(site, "roundtrip:lookahead-value!=", "none", inj2, py.substr(0, 300), px.substr(0, 300)); continue; }
         // both objects are judged in the same situation: after the operation AND after the comparison above
         // (equality may close / minimize both sides; with inexact coefficients OK() can fail after that on both)
         bool ok2 = false, ok1b = false; try { ok2 = A.ok(*y); ok1b = A.ok(*x); } catch (...) {}
